@@ -30,6 +30,8 @@ def closer_deletions(chk, quick):
             elif k == 'env':
                 e = text.rfind('\\end{')
                 out.append(src[:pos + e] + src[pos + ln:])
+                if pos + ln == len(src):        # the final brace of a trailing \end{name}
+                    out.append(src[:-1])
     return list(dict.fromkeys(out))
 
 
